@@ -268,6 +268,11 @@ def _validate_concretely(rec, prob, kwargs, assumptions, mk, tag):
     except Skip:
         return
     except Exception as e:  # noqa: BLE001
+        if type(e).__module__.startswith("mici.errors"):
+            # the library's own loud failure at this (unconstrained in size) witness, e.g. a fixed-point iteration that does not
+            # converge for a finite step at extreme parameter values: the point is outside the concrete run's domain - no trace
+            rec.note(f"{tag}: validation witness rejected by the library itself ({type(e).__name__})")
+            return
         rec.validation_mismatches.append(f"{tag}: concrete run raised {type(e).__name__}: {str(e)[:120]}")
         return
     finally:
